@@ -16,6 +16,9 @@ open GlueVerif.C16
 #print axioms cache_step_sound
 #print axioms cache_sound
 #print axioms cache_sound_from
+#print axioms cache_key_exact_needed
+#print axioms hit_test_as_coded
+#print axioms allclose_bounds_stale
 #print axioms slice_to_bound_positions
 #print axioms sliced_request_denotes
 #print axioms selection_edited_in_place_stale
